@@ -370,6 +370,12 @@ class ExcelModel:
             _name = '%s'
             if 'sheet_id' in rng:
                 _name = f'{rng["sheet_id"]}!{_name}'
+            for r in formula_ranges:  # Array formulas spilling on the range.
+                r = r.ranges[0]
+                if r['n1'] <= rng['n2'] and rng['n1'] <= r['n2'] and \
+                        int(r['r1']) <= int(rng['r2']) and \
+                        int(rng['r1']) <= int(r['r2']):
+                    stack.append(_name % f"{r['c1']}{r['r1']}")
             if wk not in sheet_limits:
                 sheet_limits[wk] = wk.max_row, wk.max_column
             max_row, max_column = sheet_limits[wk]
